@@ -126,6 +126,27 @@ namespace c16
           const LD tol = tol_of<DT>(kap, maxabs(vs) * S);
           VF_CHECK(std::isfinite((double)got) && fabsl(got - ex) <= tol, "force_blocked: v^T b = " << (double)got << " but the exact functional value is " << (double)ex << " (tol " << (double)tol << ")");
         }
+        // ---- vector-valued Laplace functional (Tensor3 Hessians: the evaluator's own per-point state) on both routes and against the exact value
+        {
+          BVectorType c1(nd), c2(nd); c1.format(pre); c2.format(pre);
+          Assembly::Common::LaplaceFunctional<PolyVecFunction<dim, dim>> lfun(fv);
+          Assembly::LinearFunctionalAssembler::assemble_vector(c1, lfun, space, cub, alpha);
+          Assembly::assemble_linear_functional_vector(da, c2, lfun, space, cubname, alpha);
+          std::vector<LD> w1 = flat_of(c1), w2 = flat_of(c2);
+          check_same_vec<DT>(w1, w2, kap, "blocked Laplace functional: assemble_linear_functional_vector vs LinearFunctionalAssembler::assemble_vector");
+          for(auto& x : w1) x -= (LD)pre;
+          LD S2 = 0; for(LD x : w1) S2 += fabsl(x); S2 = std::max(S2, (LD)fabsl((LD)pre));
+          if(cub_ok && space_ok)
+          {
+            std::vector<LD> vs((size_t)nd * dim, 0.0L);
+            for(int a = 0; a < dim; ++a) { PolyFunction<dim> pv(Vp[(size_t)a]); VectorType vh; Assembly::Interpolator::project(vh, pv, space); for(Index i = 0; i < nd; ++i) vs[(size_t)i * dim + (size_t)a] = (LD)vh.elements()[i]; }
+            const std::vector<QP> qp = mesh_qps(rm, q + polys_degree(Vp));
+            const LD ex = al * integrate(qp, [&](const LD* x) { LD s2 = 0; for(int a = 0; a < dim; ++a) { LD lap = 0; for(int b = 0; b < dim; ++b) lap += F[(size_t)a].template der2<LD>(x, b, b); s2 -= lap * Vp[(size_t)a].template val<LD>(x); } return s2; });
+            LD got = 0; for(size_t i = 0; i < vs.size(); ++i) got += vs[i] * w1[i];
+            const LD tol = tol_of<DT>(kap, maxabs(vs) * S2);
+            VF_CHECK(std::isfinite((double)got) && fabsl(got - ex) <= tol, "laplace_blocked: v^T b = " << (double)got << " but the exact functional value is " << (double)ex << " (tol " << (double)tol << ")");
+          }
+        }
       }
       else if(sub == 3)
       {
